@@ -1,0 +1,392 @@
+//go:build verif
+// +build verif
+
+package lorawan
+
+// Client lemmas for /verif (tool: gov).  These functions are never called by
+// library code; gov verifies them symbolically, using only the CONTRACTS of
+// the functions they call (zz_contracts_verif.go), never their bodies.
+
+// verifAssert: proof obligation.  verifAssume: assumption (reported in the evidence).
+func verifAssert(cond bool, label string) {}
+func verifAssume(cond bool)               {}
+
+// ---------------------------------------------------------------------------
+// C07: encoding is lossless-or-error -- decode(encode(v)) == v for every value
+// the encoder accepts, for every MAC-command payload type.
+// ---------------------------------------------------------------------------
+
+func lemmaC07_roundtrip_LinkCheckAnsPayload(v LinkCheckAnsPayload) {
+	b, err := v.MarshalBinary()
+	if err != nil {
+		return
+	}
+	var w LinkCheckAnsPayload
+	err2 := w.UnmarshalBinary(b)
+	verifAssert(err2 == nil, "accepted")
+	verifAssert(w == v, "equal")
+}
+
+func lemmaC07_roundtrip_ChMask(v ChMask) {
+	b, err := v.MarshalBinary()
+	if err != nil {
+		return
+	}
+	var w ChMask
+	err2 := w.UnmarshalBinary(b)
+	verifAssert(err2 == nil, "accepted")
+	verifAssert(w == v, "equal")
+}
+
+func lemmaC07_roundtrip_Redundancy(v Redundancy) {
+	b, err := v.MarshalBinary()
+	if err != nil {
+		return
+	}
+	var w Redundancy
+	err2 := w.UnmarshalBinary(b)
+	verifAssert(err2 == nil, "accepted")
+	verifAssert(w == v, "equal")
+}
+
+func lemmaC07_roundtrip_LinkADRReqPayload(v LinkADRReqPayload) {
+	b, err := v.MarshalBinary()
+	if err != nil {
+		return
+	}
+	var w LinkADRReqPayload
+	err2 := w.UnmarshalBinary(b)
+	verifAssert(err2 == nil, "accepted")
+	verifAssert(w == v, "equal")
+}
+
+func lemmaC07_roundtrip_LinkADRAnsPayload(v LinkADRAnsPayload) {
+	b, err := v.MarshalBinary()
+	if err != nil {
+		return
+	}
+	var w LinkADRAnsPayload
+	err2 := w.UnmarshalBinary(b)
+	verifAssert(err2 == nil, "accepted")
+	verifAssert(w == v, "equal")
+}
+
+func lemmaC07_roundtrip_DutyCycleReqPayload(v DutyCycleReqPayload) {
+	b, err := v.MarshalBinary()
+	if err != nil {
+		return
+	}
+	var w DutyCycleReqPayload
+	err2 := w.UnmarshalBinary(b)
+	verifAssert(err2 == nil, "accepted")
+	verifAssert(w == v, "equal")
+}
+
+func lemmaC07_roundtrip_DLSettings(v DLSettings) {
+	b, err := v.MarshalBinary()
+	if err != nil {
+		return
+	}
+	var w DLSettings
+	err2 := w.UnmarshalBinary(b)
+	verifAssert(err2 == nil, "accepted")
+	verifAssert(w == v, "equal")
+}
+
+func lemmaC07_roundtrip_RXParamSetupReqPayload(v RXParamSetupReqPayload) {
+	b, err := v.MarshalBinary()
+	if err != nil {
+		return
+	}
+	var w RXParamSetupReqPayload
+	err2 := w.UnmarshalBinary(b)
+	verifAssert(err2 == nil, "accepted")
+	verifAssert(w == v, "equal")
+}
+
+func lemmaC07_roundtrip_RXParamSetupAnsPayload(v RXParamSetupAnsPayload) {
+	b, err := v.MarshalBinary()
+	if err != nil {
+		return
+	}
+	var w RXParamSetupAnsPayload
+	err2 := w.UnmarshalBinary(b)
+	verifAssert(err2 == nil, "accepted")
+	verifAssert(w == v, "equal")
+}
+
+func lemmaC07_roundtrip_DevStatusAnsPayload(v DevStatusAnsPayload) {
+	b, err := v.MarshalBinary()
+	if err != nil {
+		return
+	}
+	var w DevStatusAnsPayload
+	err2 := w.UnmarshalBinary(b)
+	verifAssert(err2 == nil, "accepted")
+	verifAssert(w == v, "equal")
+}
+
+func lemmaC07_roundtrip_NewChannelReqPayload(v NewChannelReqPayload) {
+	b, err := v.MarshalBinary()
+	if err != nil {
+		return
+	}
+	var w NewChannelReqPayload
+	err2 := w.UnmarshalBinary(b)
+	verifAssert(err2 == nil, "accepted")
+	verifAssert(w == v, "equal")
+}
+
+func lemmaC07_roundtrip_NewChannelAnsPayload(v NewChannelAnsPayload) {
+	b, err := v.MarshalBinary()
+	if err != nil {
+		return
+	}
+	var w NewChannelAnsPayload
+	err2 := w.UnmarshalBinary(b)
+	verifAssert(err2 == nil, "accepted")
+	verifAssert(w == v, "equal")
+}
+
+func lemmaC07_roundtrip_RXTimingSetupReqPayload(v RXTimingSetupReqPayload) {
+	b, err := v.MarshalBinary()
+	if err != nil {
+		return
+	}
+	var w RXTimingSetupReqPayload
+	err2 := w.UnmarshalBinary(b)
+	verifAssert(err2 == nil, "accepted")
+	verifAssert(w == v, "equal")
+}
+
+func lemmaC07_roundtrip_TXParamSetupReqPayload(v TXParamSetupReqPayload) {
+	b, err := v.MarshalBinary()
+	if err != nil {
+		return
+	}
+	var w TXParamSetupReqPayload
+	err2 := w.UnmarshalBinary(b)
+	verifAssert(err2 == nil, "accepted")
+	verifAssert(w == v, "equal")
+}
+
+func lemmaC07_roundtrip_DLChannelReqPayload(v DLChannelReqPayload) {
+	b, err := v.MarshalBinary()
+	if err != nil {
+		return
+	}
+	var w DLChannelReqPayload
+	err2 := w.UnmarshalBinary(b)
+	verifAssert(err2 == nil, "accepted")
+	verifAssert(w == v, "equal")
+}
+
+func lemmaC07_roundtrip_DLChannelAnsPayload(v DLChannelAnsPayload) {
+	b, err := v.MarshalBinary()
+	if err != nil {
+		return
+	}
+	var w DLChannelAnsPayload
+	err2 := w.UnmarshalBinary(b)
+	verifAssert(err2 == nil, "accepted")
+	verifAssert(w == v, "equal")
+}
+
+func lemmaC07_roundtrip_PingSlotInfoReqPayload(v PingSlotInfoReqPayload) {
+	b, err := v.MarshalBinary()
+	if err != nil {
+		return
+	}
+	var w PingSlotInfoReqPayload
+	err2 := w.UnmarshalBinary(b)
+	verifAssert(err2 == nil, "accepted")
+	verifAssert(w == v, "equal")
+}
+
+func lemmaC07_roundtrip_BeaconFreqReqPayload(v BeaconFreqReqPayload) {
+	b, err := v.MarshalBinary()
+	if err != nil {
+		return
+	}
+	var w BeaconFreqReqPayload
+	err2 := w.UnmarshalBinary(b)
+	verifAssert(err2 == nil, "accepted")
+	verifAssert(w == v, "equal")
+}
+
+func lemmaC07_roundtrip_BeaconFreqAnsPayload(v BeaconFreqAnsPayload) {
+	b, err := v.MarshalBinary()
+	if err != nil {
+		return
+	}
+	var w BeaconFreqAnsPayload
+	err2 := w.UnmarshalBinary(b)
+	verifAssert(err2 == nil, "accepted")
+	verifAssert(w == v, "equal")
+}
+
+func lemmaC07_roundtrip_PingSlotChannelReqPayload(v PingSlotChannelReqPayload) {
+	b, err := v.MarshalBinary()
+	if err != nil {
+		return
+	}
+	var w PingSlotChannelReqPayload
+	err2 := w.UnmarshalBinary(b)
+	verifAssert(err2 == nil, "accepted")
+	verifAssert(w == v, "equal")
+}
+
+func lemmaC07_roundtrip_PingSlotChannelAnsPayload(v PingSlotChannelAnsPayload) {
+	b, err := v.MarshalBinary()
+	if err != nil {
+		return
+	}
+	var w PingSlotChannelAnsPayload
+	err2 := w.UnmarshalBinary(b)
+	verifAssert(err2 == nil, "accepted")
+	verifAssert(w == v, "equal")
+}
+
+func lemmaC07_roundtrip_Version(v Version) {
+	b, err := v.MarshalBinary()
+	if err != nil {
+		return
+	}
+	var w Version
+	err2 := w.UnmarshalBinary(b)
+	verifAssert(err2 == nil, "accepted")
+	verifAssert(w == v, "equal")
+}
+
+func lemmaC07_roundtrip_ResetIndPayload(v ResetIndPayload) {
+	b, err := v.MarshalBinary()
+	if err != nil {
+		return
+	}
+	var w ResetIndPayload
+	err2 := w.UnmarshalBinary(b)
+	verifAssert(err2 == nil, "accepted")
+	verifAssert(w == v, "equal")
+}
+
+func lemmaC07_roundtrip_ResetConfPayload(v ResetConfPayload) {
+	b, err := v.MarshalBinary()
+	if err != nil {
+		return
+	}
+	var w ResetConfPayload
+	err2 := w.UnmarshalBinary(b)
+	verifAssert(err2 == nil, "accepted")
+	verifAssert(w == v, "equal")
+}
+
+func lemmaC07_roundtrip_RekeyIndPayload(v RekeyIndPayload) {
+	b, err := v.MarshalBinary()
+	if err != nil {
+		return
+	}
+	var w RekeyIndPayload
+	err2 := w.UnmarshalBinary(b)
+	verifAssert(err2 == nil, "accepted")
+	verifAssert(w == v, "equal")
+}
+
+func lemmaC07_roundtrip_RekeyConfPayload(v RekeyConfPayload) {
+	b, err := v.MarshalBinary()
+	if err != nil {
+		return
+	}
+	var w RekeyConfPayload
+	err2 := w.UnmarshalBinary(b)
+	verifAssert(err2 == nil, "accepted")
+	verifAssert(w == v, "equal")
+}
+
+func lemmaC07_roundtrip_ADRParam(v ADRParam) {
+	b, err := v.MarshalBinary()
+	if err != nil {
+		return
+	}
+	var w ADRParam
+	err2 := w.UnmarshalBinary(b)
+	verifAssert(err2 == nil, "accepted")
+	verifAssert(w == v, "equal")
+}
+
+func lemmaC07_roundtrip_ADRParamSetupReqPayload(v ADRParamSetupReqPayload) {
+	b, err := v.MarshalBinary()
+	if err != nil {
+		return
+	}
+	var w ADRParamSetupReqPayload
+	err2 := w.UnmarshalBinary(b)
+	verifAssert(err2 == nil, "accepted")
+	verifAssert(w == v, "equal")
+}
+
+func lemmaC07_roundtrip_ForceRejoinReqPayload(v ForceRejoinReqPayload) {
+	b, err := v.MarshalBinary()
+	if err != nil {
+		return
+	}
+	var w ForceRejoinReqPayload
+	err2 := w.UnmarshalBinary(b)
+	verifAssert(err2 == nil, "accepted")
+	verifAssert(w == v, "equal")
+}
+
+func lemmaC07_roundtrip_RejoinParamSetupReqPayload(v RejoinParamSetupReqPayload) {
+	b, err := v.MarshalBinary()
+	if err != nil {
+		return
+	}
+	var w RejoinParamSetupReqPayload
+	err2 := w.UnmarshalBinary(b)
+	verifAssert(err2 == nil, "accepted")
+	verifAssert(w == v, "equal")
+}
+
+func lemmaC07_roundtrip_RejoinParamSetupAnsPayload(v RejoinParamSetupAnsPayload) {
+	b, err := v.MarshalBinary()
+	if err != nil {
+		return
+	}
+	var w RejoinParamSetupAnsPayload
+	err2 := w.UnmarshalBinary(b)
+	verifAssert(err2 == nil, "accepted")
+	verifAssert(w == v, "equal")
+}
+
+func lemmaC07_roundtrip_DeviceModeIndPayload(v DeviceModeIndPayload) {
+	b, err := v.MarshalBinary()
+	if err != nil {
+		return
+	}
+	var w DeviceModeIndPayload
+	err2 := w.UnmarshalBinary(b)
+	verifAssert(err2 == nil, "accepted")
+	verifAssert(w == v, "equal")
+}
+
+func lemmaC07_roundtrip_DeviceModeConfPayload(v DeviceModeConfPayload) {
+	b, err := v.MarshalBinary()
+	if err != nil {
+		return
+	}
+	var w DeviceModeConfPayload
+	err2 := w.UnmarshalBinary(b)
+	verifAssert(err2 == nil, "accepted")
+	verifAssert(w == v, "equal")
+}
+
+// DeviceTimeAns has 1/256 s resolution: the decoded time is the encoded one rounded down.
+func lemmaC07_roundtrip_DeviceTimeAnsPayload(v DeviceTimeAnsPayload) {
+	b, err := v.MarshalBinary()
+	if err != nil {
+		return
+	}
+	var w DeviceTimeAnsPayload
+	err2 := w.UnmarshalBinary(b)
+	verifAssert(err2 == nil, "accepted")
+	verifAssert(w.TimeSinceGPSEpoch <= v.TimeSinceGPSEpoch && v.TimeSinceGPSEpoch-w.TimeSinceGPSEpoch < 3906250, "equal-to-resolution")
+}
